@@ -8,6 +8,9 @@ from states import adt, UNIT as _ST
 import dispatch_ext as _de
 import re as _re
 import hellos as _hl
+import derived as _dv
+# derived's encoder for an opaque<1..2^8-1> field (ECPoint): lemma_ecpoint_roundtrip there proves the parser inverts it
+_ENC8 = "\n".join(_re.findall(r"(?m)^pub open spec fn enc_opaque8\(.*$", _dv.__dict__.get("ROUNDTRIP", "") or open(_dv.__file__).read()))
 # the RFC encoder spec functions of unit hellos (enc_u16, enc_sh), taken from its text so that the two units speak about the same
 # function by construction: hellos proves parse(enc_sh(v)) == v (lemma_server_hello_roundtrip); here serialize(v) == enc_sh(v)
 _ENC = "\n".join(_re.findall(r"(?ms)^pub open spec fn (?:enc_u16|enc_sh)\(.*?^\}$|^pub open spec fn enc_u16\(.*?$", _hl.ROUNDTRIP))
@@ -152,6 +155,16 @@ proof fn lemma_server_hello_is_rfc_encoding(m: TlsServerHelloContents)
 }
 '''
 
+LINK2 = _ENC8 + r'''
+// an ECDH ClientKeyExchange is the handshake framing (type 16) of exactly the ECPoint encoding enc_opaque8 that unit derived proves
+// parse_ec_point to invert (lemma_ecpoint_roundtrip); a DH one is the framing of the u16-prefixed public value
+proof fn lemma_cke_ecdh_is_ecpoint_encoding(p: ECPoint)
+    ensures cke_out(TlsClientKeyExchangeContents::Ecdh(p)) == hs_out(16, bytes(enc_opaque8(p.point@))),
+{
+    assert(seq![p.point@.len() as u8] + p.point@ =~= enc_opaque8(p.point@));
+}
+'''
+
 R = ["R20", "R21"]
 def clo(post):
     """R9: the returned closure's signature made explicit, with its contract"""
@@ -231,5 +244,5 @@ UNIT = {
          "subst": [clo_expr("gen_post(out, r2, extension_out(*m))"), (r"\(ref (\w+)\)", r"(\1)")],
          "contract": "    ensures emits(r, extension_out(*m)),"},
     ],
-    "epilogue": LEMMAS + LINK,
+    "epilogue": LEMMAS + LINK + LINK2,
 }
